@@ -501,7 +501,7 @@ def bounded(rec):
     import pints
     import xarray as xr
     sel = [p_ for p_ in posteriors(real, 'quick') if any(t in p_[0] for t in ("('G', 1, 0), ('P', 1, 0))", "('G', 1, 0), ('H', 1, 0))", "('CG', 1, 1),)", 'LogPosterior(3 parameters, id set)', "(('Gn', 2, 0),), 2"))]
-    cases = [('optimisation', k) for k in range(len(sel))] + [('sampling.run', k) for k in range(len(sel))] + [('read.back', 0), ('read.back', 1)]
+    cases = [('optimisation', k) for k in range(len(sel))] + [('sampling.run', k) for k in range(len(sel))] + [('read.back', 0), ('read.back', 1), ('read.back', 2), ('read.back', 3), ('read.back', 4)]
 
     def one(case):
         kind, k = case
@@ -552,8 +552,14 @@ def bounded(rec):
                 if not np.array_equal(got, raw[:, :, p_]):
                     return '%s: dataset entries of %r (position %d) differ from the raw chain' % (label, nm, p_)
             return None
-        # read-back
-        pm = real.PredictiveModel(c16.native_toy(1, 2)(), [real.GaussianErrorModel()])
+        # read-back (a toy model that is *not* symmetric in its two parameters: output = p0 + 7 p1 + 5)
+        class Asym(c16.native_toy(1, 2)):
+            def copy(self):
+                return Asym()
+
+            def simulate(self, parameters, times):
+                return np.full((1, len(times)), parameters[0] + 7.0 * parameters[1] + 5.0)
+        pm = real.PredictiveModel(Asym(), [real.GaussianErrorModel()])
         names = pm.get_parameter_names()
         ll = toy_ll(real, 2, 'b', n_times=3)
         inds = ['a', 'b', 'c']
@@ -568,12 +574,37 @@ def bounded(rec):
                 if not np.allclose(pw.values[c, d], want):
                     return 'compute_pointwise_loglikelihood(individual b): chain %d draw %d evaluates %s, the columns of individual b at that draw give %s' % (c, d, pw.values[c, d].tolist(), np.asarray(want).tolist())
             return None
+        if k >= 2:
+            # parameter maps (simultaneous renaming): the dataset stores the parameters under other names, incl. a swap and a chain
+            # whose targets are names of other model parameters
+            maps = {2: {names[0]: names[1], names[1]: names[0]},                       # swap
+                    3: {names[0]: 'alpha', names[1]: names[0]},                         # chain: the target of the second is the name of the first
+                    4: {names[1]: names[0], names[0]: 'alpha'}}[k]                      # the same chain written in the other order
+            base = {names[0]: 0.1 * tag, names[1]: 100 + tag}
+            stored = {}
+            for model_name, values in base.items():
+                stored[maps.get(model_name, model_name)] = values
+            dsm = xr.Dataset(dict({nm: (('chain', 'draw', 'individual'), v) for nm, v in stored.items()}, **{names[2]: (('chain', 'draw'), 1e-6 + 0 * tag[:, :, 0])}),
+                             coords={'chain': [0, 1], 'draw': [0, 1, 2], 'individual': inds})
+            if 'alpha' in maps.values() and 'alpha' not in stored:
+                return None
+            # decoys under the unmapped names, where the map frees them
+            for nm in (names[0], names[1]):
+                if nm not in dsm.data_vars:
+                    dsm[nm] = (('chain', 'draw', 'individual'), -5000.0 + 0 * tag)
+            ppm = real.PosteriorPredictiveModel(pm, dsm, param_map=maps)
+            df = ppm.sample([1.0], n_samples=6, individual='b', seed=4)
+            ok = {round(0.1 * tag[c, d, 1] + 7.0 * (100 + tag[c, d, 1]) + 5.0, 4) for c, d in itertools.product(range(2), range(3))}
+            for v in np.asarray(df['Value'], dtype=float):
+                if min(abs(v - o) for o in ok) > 1e-3:
+                    return 'PosteriorPredictiveModel with param_map %s: sample %.4f is not a measurement at a posterior draw of the mapped variables (%s)' % (maps, v, sorted(ok))
+            return None
         ppm = real.PosteriorPredictiveModel(pm, ds)
         df = ppm.sample([1.0], n_samples=6, individual='c', seed=4)
         vals = np.asarray(df['Value'], dtype=float)
         ok = set()
         for c, d in itertools.product(range(2), range(3)):
-            ok.add(round(0.1 * tag[c, d, 2] + 100 + tag[c, d, 2] + 5.0, 6))
+            ok.add(round(0.1 * tag[c, d, 2] + 7.0 * (100 + tag[c, d, 2]) + 5.0, 6))
         for v in vals:
             if min(abs(v - o) for o in ok) > 6 * 1.2:
                 return 'PosteriorPredictiveModel(individual c): sample %.4f is not a measurement around any posterior draw of individual c (%s)' % (v, sorted(ok))
